@@ -360,6 +360,14 @@ def gen_cases(ctx):
                 yield {'lib': spec, 'mapping': [[k, 1]], 'ntemps': 8,
                        'kind': 'unit'}
             i += 1
+        # (a') degenerate sizes: the empty mapping (an empty sum), a single
+        # entry with count zero, the same group under two spellings is (d)
+        if ctx.mine(i):
+            yield {'lib': spec, 'mapping': [], 'kind': 'empty mapping'}
+            if names:
+                yield {'lib': spec, 'mapping': [[names[-1], 0]],
+                       'kind': 'single zero count'}
+        i += 1
         # (e) fresh library, before any decomposition
         if ctx.mine(i) and names:
             yield {'lib': spec, 'mapping': [[names[0], 2]], 'fresh': True,
